@@ -14,6 +14,27 @@ let int_arg args i = match List.nth_opt args i with Some s -> (try int_of_string
 let str_arg args i = match List.nth_opt args i with Some s -> s | None -> ""
 let of_values o = ints_of (String.sub o 1 (String.length o - 1))
 
+(* lists of more than 200 items are printed as a digest, by the same rule as the harness:
+   #<count>:<FNV-1a-64 of the comma-joined text>:<first three>~<last three> *)
+let digest_above = 200
+let show_list (items : string list) =
+  if items = [] then "." else
+  let joined = String.concat "," items in
+  let n = List.length items in
+  if n <= digest_above then joined else begin
+    let h = ref (-3750763034362895579L) in
+    String.iter (fun c -> h := Int64.mul (Int64.logxor !h (Int64.of_int (Char.code c))) 1099511628211L) joined;
+    let a = Array.of_list items in
+    Printf.sprintf "#%d:%016Lx:%s~%s" n !h (String.concat "," [a.(0); a.(1); a.(2)]) (String.concat "," [a.(n-3); a.(n-2); a.(n-1)])
+  end
+let show_int_list l = show_list (List.map string_of_int l)
+let max_bulk = 1 lsl 17
+let seq_vals b n = List.init (max n 0) (fun i -> b + 1 + i)
+let offsets_of args =   (* T<r>,<o>+<o>+... *)
+  match args with
+  | _ :: rest -> List.map int_of_string_opt (String.split_on_char '+' (String.concat "," rest))
+  | [] -> []
+
 let a_big = max_int
 let sign_big s = (* "is |n| beyond any ring" for numbers that do not fit an OCaml int *)
   if s = "" then 0 (* a missing argument reads as 0, as in the harness *) else
@@ -40,7 +61,7 @@ let m_show s = function
   | M.RPtr p -> m_name s p
   | M.RPeek (v, ok) -> string_of_int v ^ ":" ^ b01 ok
   | M.RLen n -> string_of_int (int_of_z n)
-  | M.REach vs -> str_ints vs
+  | M.REach vs -> show_int_list vs
   | M.RBool b -> b01 b
   | M.RPanic -> "panic:nil"
   | M.RFault -> "fault"
@@ -76,7 +97,22 @@ let m_walk s r k back =
       | x -> out := m_show s x :: !out; raise Exit
     done
   with Exit -> ());
-  if !out = [] then "." else String.concat "," (List.rev !out)
+  show_list (List.rev !out)
+
+(* k times: x := r.Next() (r.Prev()); x.Pop() *)
+let m_drain s r k back =
+  let out = ref [] in
+  (try
+    for _ = 1 to k do
+      match m_step s (if back then M.OPrev r else M.ONext r) with
+      | M.RPtr x ->
+        (match m_step s (M.OPop x) with
+         | M.RPtr p -> out := m_name s p :: !out
+         | y -> out := m_show s y :: !out; raise Exit)
+      | y -> out := m_show s y :: !out; raise Exit
+    done
+  with Exit -> ());
+  show_list (List.rev !out)
 
 let rec m_op s o =
   if o = "" then "?" else
@@ -92,6 +128,13 @@ let rec m_op s o =
     let vs = of_values o in
     (match m_step s (M.OOf vs) with
      | M.RPtr r -> m_register s r (List.length vs); m_name s r
+     | x -> m_show s x)
+  | 'R' ->
+    let n = int_arg args 0 and b = int_arg args 1 in
+    if n < 0 || n > max_bulk then "too-large" else
+    let vs = seq_vals b n in
+    (match m_step s (M.OOf vs) with
+     | M.RPtr r -> m_register s r n; m_name s r
      | x -> m_show s x)
   | 'S' ->
     let c = s.count in
@@ -125,6 +168,28 @@ let rec m_op s o =
         | 'Z' -> m_show s (m_step s (M.OIsEmpty r))
         | 'F' -> m_walk s r (int_arg args 1) false
         | 'B' -> m_walk s r (int_arg args 1) true
+        | 'D' -> m_drain s r (int_arg args 1) false
+        | 'C' -> m_drain s r (int_arg args 1) true
+        | 'G' ->
+          let lo = int_arg args 1 and hi = int_arg args 2 in
+          if lo < 0 || hi > s.count then "fault" else begin
+            let out = ref [] in
+            (try
+              for x = lo to hi do
+                let q = if x = 0 then None else Some (nat_of_int s.addr_of.(x)) in
+                match m_step s (M.OJoin (r, q)) with
+                | M.RPtr p -> out := m_name s p :: !out
+                | y -> out := m_show s y :: !out; raise Exit
+              done
+            with Exit -> ());
+            show_list (List.rev !out)
+          end
+        | 'T' ->
+          let offs = offsets_of args in
+          if List.mem None offs then "?" else
+          String.concat "," (List.map (function
+            | Some n -> m_show s (m_step s (M.OAt (r, z_of_int n))) ^ "=" ^ m_show s (m_step s (M.OPeek (r, z_of_int n)))
+            | None -> "?") offs)
         | _ -> "?"))
 
 let eval inp =
@@ -166,13 +231,13 @@ let a_walk a r k back =
       out := x :: !out;
       match int_of_string_opt x with Some y -> cur := y | None -> raise Exit
     done with Exit -> ());
-  if !out = [] then "." else String.concat "," (List.rev !out)
+  show_list (List.rev !out)
 
 let a_len a r = if r = 0 then 0 else List.length (fst (cycle_from a r))
 let a_each a r lim =
   if r = 0 then "." else
   let vs = List.map (Hashtbl.find a.vals) (fst (cycle_from a r)) in
-  str_ints (if lim = 0 then vs else List.filteri (fun i _ -> i < lim) vs)
+  show_int_list (if lim = 0 then vs else List.filteri (fun i _ -> i < lim) vs)
 let a_peek a r n = match a_at a r n with 0 -> "0:0" | x -> string_of_int (Hashtbl.find a.vals x) ^ ":1"
 
 let a_make a vs =
@@ -186,12 +251,45 @@ let a_make a vs =
 
 let a_handle a s = match int_of_string_opt s with Some k when k >= 0 && k <= a.n -> Some k | _ -> None
 
+(* r.Join(s) on the cycles: the documented two cases *)
+let a_join a r s =
+  if r = 0 then (if s = 0 then "0" else "panic:nil")   (* r must be non-empty; the code dereferences it *)
+  else if s = 0 then "panic:nil"
+  else if r = s then "0"
+  else begin
+    let (cr, others) = cycle_from a r in
+    let rest = List.tl cr in
+    match split_at s rest with
+    | Some ([], _) -> "0"                                   (* s follows r: nothing between *)
+    | Some (between, after) ->                              (* same ring: [r2..ri] is cut out *)
+      a.cycles <- (r :: s :: after) :: between :: others;
+      string_of_int (List.hd between)
+    | None ->                                               (* different rings *)
+      a.cycles <- others;
+      let (cs, others') = cycle_from a s in
+      a.cycles <- ((r :: cs) @ rest) :: others';
+      string_of_int (match rest with x :: _ -> x | [] -> r)
+  end
+
+(* r.Pop(): r alone, the rest of its cycle keeps its order *)
+let a_pop a r =
+  if r = 0 then "0" else begin
+    let (cr, others) = cycle_from a r in
+    (match List.tl cr with
+     | [] -> ()
+     | rest -> a.cycles <- [r] :: rest :: others);
+    string_of_int r
+  end
+
 let a_op a o =
   if o = "" then "?" else
   let args = op_args o in
   match o.[0] with
   | 'N' -> let n = sign_big (str_arg args 0) in a_make a (List.init (max n 0) (fun _ -> 0))
   | 'O' -> a_make a (of_values o)
+  | 'R' ->
+    let n = int_arg args 0 and b = int_arg args 1 in
+    if n < 0 || n > max_bulk then "too-large" else a_make a (seq_vals b n)
   | 'S' ->
     let c = a.n in
     let blocks = List.init c (fun i ->
@@ -210,34 +308,40 @@ let a_op a o =
         | 'J' ->
           (match a_handle a (str_arg args 1) with
            | None -> "fault"
-           | Some s ->
-             if r = 0 then (if s = 0 then "0" else "panic:nil")   (* r must be non-empty; the code dereferences it *)
-             else if s = 0 then "panic:nil"
-             else if r = s then "0"
-             else begin
-               let (cr, others) = cycle_from a r in
-               let rest = List.tl cr in
-               match split_at s rest with
-               | Some ([], _) -> "0"                                   (* s follows r: nothing between *)
-               | Some (between, after) ->                              (* same ring: [r2..ri] is cut out *)
-                 a.cycles <- (r :: s :: after) :: between :: others;
-                 string_of_int (List.hd between)
-               | None ->                                               (* different rings *)
-                 let save = a.cycles in
-                 a.cycles <- others;
-                 let (cs, others') = cycle_from a s in
-                 ignore save;
-                 a.cycles <- ((r :: cs) @ rest) :: others';
-                 string_of_int (match rest with x :: _ -> x | [] -> r)
-             end)
-        | 'P' ->
-          if r = 0 then "0" else begin
-            let (cr, others) = cycle_from a r in
-            (match List.tl cr with
-             | [] -> ()
-             | rest -> a.cycles <- [r] :: rest :: others);
-            string_of_int r
+           | Some s -> a_join a r s)
+        | 'P' -> a_pop a r
+        | 'D' | 'C' ->
+          (* k times: x := r.Next() (r.Prev()); x.Pop() *)
+          let back = (c = 'C') in
+          let out = ref [] in
+          (try
+            for _ = 1 to int_arg args 1 do
+              let x = if back then a_prev a r else a_next a r in
+              match int_of_string_opt x with
+              | Some x -> out := a_pop a x :: !out
+              | None -> out := x :: !out; raise Exit
+            done
+          with Exit -> ());
+          show_list (List.rev !out)
+        | 'G' ->
+          let lo = int_arg args 1 and hi = int_arg args 2 in
+          if lo < 0 || hi > a.n then "fault" else begin
+            let out = ref [] in
+            (try
+              for x = lo to hi do
+                let res = a_join a r x in
+                out := res :: !out;
+                if int_of_string_opt res = None then raise Exit
+              done
+            with Exit -> ());
+            show_list (List.rev !out)
           end
+        | 'T' ->
+          let offs = offsets_of args in
+          if List.mem None offs then "?" else
+          String.concat "," (List.map (function
+            | Some n -> string_of_int (a_at a r n) ^ "=" ^ a_peek a r n
+            | None -> "?") offs)
         | 'X' -> a_next a r
         | 'V' -> a_prev a r
         | 'A' -> string_of_int (a_at a r (sign_big (str_arg args 1)))
